@@ -141,10 +141,107 @@ def _work_batch(args):
                 except X.SpecError as u:
                     res["unsupported"].append((name, w, "xmlsem: " + str(u)))
             def solve_all(obls):
+                """solve the obligations of one class in a forked child that streams results back; the child beats
+                before every solver attempt, and a child silent for longer than any attempt may take is killed (z3's
+                sequence solver does not always honour its timeout): that obligation is `unknown`, a new child
+                takes the rest"""
+                import pickle
+                import select
+                import signal
+                import struct
+                HARD = 45.0
                 out_ = []
-                for ob in obls:
-                    out_.append(solve_one(ob))
+                i = 0
+                while i < len(obls):
+                    rfd, wfd = os.pipe()
+                    pid = os.fork()
+                    if pid == 0:
+                        code = 0
+                        try:
+                            os.close(rfd)
+
+                            def send(msg):
+                                b = pickle.dumps(msg)
+                                os.write(wfd, struct.pack("<I", len(b)) + b)
+                            res["_beat"] = lambda budget=HARD: send(("beat", budget))
+                            for j in range(i, len(obls)):
+                                t = solve_or_skip(obls[j])
+                                send(("res", j, t, res.get("hard", 0), res.get("refuted", 0), res["solver_s"]))
+                        except BaseException:
+                            code = 1
+                        finally:
+                            os._exit(code)
+                    os.close(wfd)
+
+                    allow = [HARD]
+
+                    def recv():
+                        """one framed message, None on silence beyond the announced budget, EOFError when the child is gone"""
+                        buf = b""
+                        need = 4
+                        head = None
+                        while True:
+                            ready, _, _ = select.select([rfd], [], [], allow[0])
+                            if not ready:
+                                return None
+                            chunk = os.read(rfd, need - len(buf))
+                            if not chunk:
+                                raise EOFError
+                            buf += chunk
+                            if len(buf) == need:
+                                if head is None:
+                                    head = struct.unpack("<I", buf)[0]
+                                    buf, need = b"", head
+                                    if need == 0:
+                                        return pickle.loads(b"")
+                                else:
+                                    return pickle.loads(buf)
+                    try:
+                        while i < len(obls):
+                            try:
+                                msg = recv()
+                            except EOFError:
+                                msg = "dead"
+                            if msg is None or msg == "dead":
+                                ob = obls[i]
+                                try:
+                                    os.kill(pid, signal.SIGKILL)
+                                except OSError:
+                                    pass
+                                out_.append((ob.name, ob.kind, ob.fn, "unknown",
+                                             "z3-5.1[killed: silent beyond the hard budget]" if msg is None else "z3-5.1[solver process died]",
+                                             allow[0] if msg is None else 0.0,
+                                             {k: v for k, v in ob.info.items() if k in ("why", "property", "clause")}, None))
+                                if ob.kind != "variant":
+                                    res["hard"] = res.get("hard", 0) + 1
+                                res["solver_s"] += allow[0] if msg is None else 0.0
+                                i += 1
+                                break
+                            if msg[0] == "beat":
+                                allow[0] = msg[1]
+                                continue
+                            _, j, t, hard, refuted, solver_s = msg
+                            out_.append(t)
+                            res["hard"], res["refuted"], res["solver_s"] = hard, refuted, solver_s
+                            i = j + 1
+                    finally:
+                        os.close(rfd)
+                        try:
+                            os.waitpid(pid, 0)
+                        except OSError:
+                            pass
                 return out_
+
+            def solve_or_skip(ob):
+                if res.get("refuted", 0) >= 8:
+                    # this batch already has eight obligations refuted with validated counter-models: the
+                    # rest is not solved (status `skipped`: neither discharged nor reported)
+                    return (ob.name, ob.kind, ob.fn, "skipped", "-", 0.0,
+                            {k: v for k, v in ob.info.items() if k in ("why", "property", "clause")}, None)
+                t = solve_one(ob)
+                if t[3] == "sat":
+                    res["refuted"] = res.get("refuted", 0) + 1
+                return t
 
             def solve_one(ob):
                 t0 = time.time()
@@ -153,6 +250,8 @@ def _work_batch(args):
                     status, backend, model = "unsat", "simplify", None
                 else:
                     def attempt(seed):
+                        soft = 4000 if ob.kind.startswith("roundtrip") else timeout_ms
+                        res.get("_beat", lambda b=0: None)(soft / 1000.0 + 10.0)
                         s = z3.Solver()
                         s.set("timeout", 4000 if ob.kind.startswith("roundtrip") else timeout_ms)
                         if seed:
@@ -198,6 +297,7 @@ def _work_batch(args):
                         solve._OBLS = [ob]
                         solve._AXIOMS = []
                         for which in ("z3-4.8", "cvc5"):
+                            res.get("_beat", lambda b=0: None)(32.0)
                             _, _, r2, _ = solve._cli((0, which, 20))
                             if r2 == "unsat":       # a CLI `sat` on a sequence query cannot be validated here: not trusted
                                 status, backend = r2, which
